@@ -103,13 +103,20 @@ def gen_s3m(r):
         orders.append(0xff if k < 0.1 else 0xfe if k < 0.2 else min(255, r.randint(0, top + 2)) if k < 0.3 else r.randint(0, top - 1))
     if r.random() < 0.08:
         orders = [r.choice([0xfe, 0xff]) for _ in range(ordnum)]      # no pattern at all
+    body = build_s3m(ffi, ordnum, insnum, patnum, magic_ok, chset, orders, r.choice([0, 6, 255]), r.choice([0, 32, 125, 255]))
+    line = "s3m %d %d %d %d %d 32 %s %d %s" % (ffi, ordnum, insnum, patnum, 1 if magic_ok else 0,
+                                              " ".join(str(x) for x in chset), len(orders), " ".join(str(x) for x in orders))
+    return body, line.rstrip()
+
+
+def build_s3m(ffi, ordnum, insnum, patnum, magic_ok, chset, orders, speed, tempo):
     hdr = bytearray(96)
     hdr[0:14] = b"c03 header tie"
     hdr[28] = 0x1a
     hdr[29] = 0x10
     struct.pack_into("<HHHHHH", hdr, 32, ordnum & 0xffff, insnum & 0xffff, patnum & 0xffff, 0, 0x1320, ffi)
     hdr[44:48] = b"SCRM" if magic_ok else b"SCRN"
-    hdr[48:54] = bytes([64, r.choice([0, 6, 255]), r.choice([0, 32, 125, 255]), 0xb0, 0, 0])
+    hdr[48:54] = bytes([64, speed, tempo, 0xb0, 0, 0])
     hdr[64:96] = bytes(chset)
     body = bytes(hdr) + bytes(orders[:ordnum])
     table_len = 2 * insnum + 2 * patnum
@@ -118,9 +125,19 @@ def gen_s3m(r):
     ipp = ins_off // 16
     body += struct.pack("<H", ipp & 0xffff) * insnum + b"\0\0" * patnum
     body += b"\0" * (ins_off - len(body)) + b"\0" * 96
-    line = "s3m %d %d %d %d %d 32 %s %d %s" % (ffi, ordnum, insnum, patnum, 1 if magic_ok else 0,
-                                              " ".join(str(x) for x in chset), len(orders), " ".join(str(x) for x in orders))
-    return body, line.rstrip()
+    return body
+
+
+def multiseq_s3m(groups):
+    """an S3M whose order list is `groups` of pattern numbers separated by 0xff end markers: one sequence per group"""
+    orders = []
+    for g in groups:
+        orders += list(g) + [0xff]
+    orders = orders[:-1]
+    if len(orders) % 2:
+        orders.append(0xff)
+    npat = max(max(g) for g in groups) + 1
+    return build_s3m(2, len(orders), 1, npat, True, [0, 1, 8, 9] + [255] * 28, orders, 6, 125)
 
 
 # ---------------------------------------------------------------- XM -------
